@@ -10,7 +10,10 @@ int Futex::wake_one() noexcept {
   Node* node = nullptr;
   {
     ::std::lock_guard<::std::mutex> lock {_mutex};
-    for (node = _awaiter_head.next; node != nullptr; node = node->next) {
+    // every round unlinks the first awaiter, so the next candidate is the new
+    // first one (node->next has just been cleared)
+    for (node = _awaiter_head.next; node != nullptr;
+         node = _awaiter_head.next) {
       // Unconditionally remove node from list, even when we can not take
       // ownership of it.
 
